@@ -256,7 +256,10 @@ def main(argv):
             bad += 1 if r.get('found') else 0
         for e in findings.load():
             if e.get('status') == 'open' and e.get('witness_cases'):
-                replay = {'C20': W.w_explain, 'C13': W.w_agg_pages, 'C12': W.w_terms_layout, 'C07': W.w_optional_clauses, 'C09': W.w_bmw_blocks}.get(e['property'])
+                by_case = {'explain-field-only-sort': W.w_explain, 'aggs-after-cursor': W.w_agg_pages, 'histogram-min-doc-count-per-segment': W.w_terms_layout,
+                           'unscored-alternatives-lose-documents': W.w_optional_clauses, 'bmw-skips-better-block': W.w_bmw_blocks,
+                           'date-histogram-fixed-rounds-up': W.w_date_buckets, 'nested-shape-after-compaction': getattr(W, 'w_nested_compact', None)}
+                replay = next((by_case[c] for c in e['witness_cases'] if by_case.get(c)), None)
                 r = replay({}, tier) if replay else dict(found=False, note='no replay generator')
                 print('known finding %s %s: %s' % (e['property'], e['witness_cases'], 'still reproduces: ' + str(r.get('input')) + ' / ' + str(r.get('observed'))[:200] if r.get('found') else 'does NOT reproduce any more'))
         return 1 if bad else 0
